@@ -34,11 +34,12 @@ deriving DecidableEq, Repr
 
 /-- plausible window of each unit: 1973-03-03T09:46:40Z (resp. …:39.999Z, the millisecond threshold)
 … 2286-11-20T17:46:40Z; nanoseconds from 2001-09-09T01:46:40Z = 10^18 ns, the magnitude the code
-comment documents for "Time in Nano Seconds" (see `nanos_before_2001_characterisation`). -/
+comment documents for "Time in Nano Seconds" (see `nanos_before_2001_characterisation`), to
+2262-04-11, the end of int64 nanoseconds (what every nanosecond-producing protocol carries). -/
 def inWindow : TUnit → Nat → Prop
   | .sec, v => 100000000 ≤ v ∧ v < 10000000000
   | .milli, v => 99999999999 ≤ v ∧ v < 10000000000000
-  | .nano, v => 1000000000000000000 ≤ v ∧ v < 10000000000000000000
+  | .nano, v => 1000000000000000000 ≤ v ∧ v < 9223372036854775808
 
 instance (u : TUnit) (v : Nat) : Decidable (inWindow u v) := by
   cases u <;> unfold inWindow <;> infer_instance
@@ -67,78 +68,38 @@ theorem dec_is_toString (n : Nat) : dec n = (toString n).toList := dec_eq_toStri
 
 /-! ## (1) accepted units, integer renderings -/
 
+/-- both encodings of an integer below 2^63 go through the same unit cascade -/
+theorem extract_scalarOf (enc : Enc) (v : Nat) (lo : Option Int) (h : v < 9223372036854775808) :
+    extractTimeStamp (scalarOf enc v lo) = .ms (scaleUnits (v : Int)) := by
+  cases enc with
+  | number => simp only [scalarOf, extractTimeStamp, extractNum_dec v h]
+  | string => simp only [scalarOf, extractTimeStamp, convertTimestampToMillis, goParseUint_dec v (by omega)]
+
 /-- C16.1a seconds: every instant of the window, as JSON number or digit string, is stored as that
 instant (s·1000 ms). -/
 theorem extract_seconds_correct (enc : Enc) (s : Nat) (lo : Option Int) (h : inWindow .sec s) :
     extractTimeStamp (scalarOf enc s lo) = .ms ((s : Int) * 1000) := by
   obtain ⟨h1, h2⟩ := h
-  cases enc with
-  | number =>
-    simp only [scalarOf, extractTimeStamp, extractNum_dec s (by omega), isMilli_false (v := (s : Int)) (by omega)]
-    congr 1; simp only [Bool.false_eq_true, if_false]; omega
-  | string =>
-    have hw : wrapU64 ((s : Int) * 1000) = (s : Int) * 1000 := by unfold wrapU64; omega
-    simp only [scalarOf, extractTimeStamp, convertTimestampToMillis, goParseUint_dec s (by omega),
-      isNano_false (v := (s : Int)) (by omega), isMilli_false (v := (s : Int)) (by omega),
-      Bool.false_eq_true, if_false, Bool.not_false, if_true, hw]
+  rw [extract_scalarOf enc s lo (by omega), scaleUnits_sec (s : Int) (by omega) (by omega)]
 
 /-- C16.1b milliseconds: every instant of the window, as JSON number or digit string, is stored as is. -/
 theorem extract_millis_correct (enc : Enc) (m : Nat) (lo : Option Int) (h : inWindow .milli m) :
     extractTimeStamp (scalarOf enc m lo) = .ms (m : Int) := by
   obtain ⟨h1, h2⟩ := h
-  cases enc with
-  | number =>
-    simp only [scalarOf, extractTimeStamp, extractNum_dec m (by omega), isMilli_true (v := (m : Int)) (by omega), if_true]
-  | string =>
-    simp only [scalarOf, extractTimeStamp, convertTimestampToMillis, goParseUint_dec m (by omega),
-      isNano_false (v := (m : Int)) (by omega), isMilli_true (v := (m : Int)) (by omega),
-      Bool.false_eq_true, if_false, Bool.not_true]
+  rw [extract_scalarOf enc m lo (by omega), scaleUnits_milli (m : Int) (by omega) (by omega)]
 
-/-- C16.1c nanoseconds as a digit string (Loki, and the unit test of ConvertTimestampToMillis): every
-instant of the window is stored as ns / 10^6. -/
-theorem extract_nanos_correct (n : Nat) (lo : Option Int) (h : inWindow .nano n) :
-    extractTimeStamp (scalarOf .string n lo) = .ms ((n / 1000000 : Nat) : Int) := by
+/-- C16.1c nanoseconds, as JSON number (OTLP-style producers) or digit string (Loki): every instant of
+the window is stored as ns / 10^6. -/
+theorem extract_nanos_correct (enc : Enc) (n : Nat) (lo : Option Int) (h : inWindow .nano n) :
+    extractTimeStamp (scalarOf enc n lo) = .ms ((n / 1000000 : Nat) : Int) := by
   obtain ⟨h1, h2⟩ := h
-  have hd : Int.tdiv (n : Int) 1000000 = ((n / 1000000 : Nat) : Int) := by
-    rw [Int.tdiv_eq_ediv_of_nonneg (by omega)]; omega
-  have hw : wrapU64 ((n / 1000000 : Nat) : Int) = ((n / 1000000 : Nat) : Int) := by unfold wrapU64; omega
-  simp only [scalarOf, extractTimeStamp, convertTimestampToMillis, goParseUint_dec n (by omega),
-    isNano_true (v := (n : Int)) (by omega), if_true, hd, hw,
-    isMilli_true (v := ((n / 1000000 : Nat) : Int)) (by omega), Bool.not_true, Bool.false_eq_true, if_false]
+  rw [extract_scalarOf enc n lo h2, scaleUnits_nano (n : Int) (by omega) (by omega)]
+  simp only [Res.ms.injEq]; omega
 
-/-! ## the full statement, where it fails, and what holds -/
-
-/-- the property at full strength for the time-unit logic: every accepted unit, both encodings -/
-def TimePreserved : Prop :=
-  ∀ (enc : Enc) (u : TUnit) (v : Nat) (lo : Option Int), inWindow u v →
-    extractTimeStamp (scalarOf enc v lo) = .ms ((toMillis u v : Nat) : Int)
-
-/-- exact behaviour for nanoseconds given as a JSON NUMBER (below 2^63, i.e. until 2262): the value
-is returned unchanged, i.e. read as milliseconds — 10^6 times too far in the future. -/
-theorem numeric_nanos_characterisation (n : Nat) (h : inWindow .nano n) (h63 : n < 9223372036854775808) :
-    extractTimeStamp (scalarOf .number n none) = .ms (n : Int) := by
-  obtain ⟨h1, _⟩ := h
-  simp only [scalarOf, extractTimeStamp, extractNum_dec n h63, isMilli_true (v := (n : Int)) (by omega), if_true]
-
-/-- C16 fails at full strength: `{"timestamp": 1714352490251000000}` (2024-04-29 in ns, the very value
-of the repository's own unit test for the string form) is stored as epoch ms 1714352490251000000. -/
-theorem time_preserved_counterexample : ¬ TimePreserved := by
-  intro h
-  have h1 := h .number .nano 1714352490251000000 none (by unfold inWindow; omega)
-  have h2 := numeric_nanos_characterisation 1714352490251000000 (by unfold inWindow; omega) (by omega)
-  rw [h2] at h1
-  simp only [toMillis, Res.ms.injEq] at h1
-  omega
-
-/-- the guard that excludes exactly the failing class: nanoseconds as a JSON number -/
-def supported (enc : Enc) (u : TUnit) : Prop := ¬ (enc = .number ∧ u = .nano)
-
-instance (enc : Enc) (u : TUnit) : Decidable (supported enc u) := by unfold supported; infer_instance
-
-/-- C16 (time-unit logic) under the guard: every instant of the window, in every accepted unit and
-encoding other than numeric nanoseconds, is stored as the instant it denotes. -/
-theorem time_preserved_partial (enc : Enc) (u : TUnit) (v : Nat) (lo : Option Int)
-    (hg : supported enc u) (h : inWindow u v) :
+/-- C16 (time-unit logic) AT FULL STRENGTH: every instant of the window, in every accepted unit and
+both encodings, is stored as the instant it denotes.  (Before the repair of ExtractTimeStamp this
+failed for nanoseconds given as a JSON number: `{"timestamp":1714352490251000000}`.) -/
+theorem time_preserved (enc : Enc) (u : TUnit) (v : Nat) (lo : Option Int) (h : inWindow u v) :
     extractTimeStamp (scalarOf enc v lo) = .ms ((toMillis u v : Nat) : Int) := by
   cases u with
   | sec =>
@@ -146,92 +107,79 @@ theorem time_preserved_partial (enc : Enc) (u : TUnit) (v : Nat) (lo : Option In
     simp only [toMillis, Res.ms.injEq]
     omega
   | milli => exact extract_millis_correct enc v lo h
-  | nano =>
-    cases enc with
-    | number => exact absurd ⟨rfl, rfl⟩ hg
-    | string => exact extract_nanos_correct v lo h
+  | nano => exact extract_nanos_correct enc v lo h
 
-/-- the guard is satisfiable in every unit (and for 5 of the 6 unit/encoding pairs) -/
-example : supported .string .nano ∧ supported .number .sec ∧ supported .number .milli ∧
-    supported .string .sec ∧ supported .string .milli := by decide
+/-- the regression witness of the repaired defect -/
+example : extractTimeStamp (.num (dec 1714352490251000000)) = .ms 1714352490251 :=
+  time_preserved .number .nano 1714352490251000000 none (by unfold inWindow; omega)
 
-/-! ## (2) exact characterisation: microseconds, early nanoseconds, fractional seconds -/
+/-! ## (2) fractional seconds; exact characterisation of what is NOT accepted -/
+
+/-- C16.2a fractional seconds `<s>.<fff>` given as a JSON number (the form Splunk HEC clients and
+`time.time()` produce): ParseInt fails, ParseFloat's binary64 is multiplied by 1000 and rounded
+BEFORE the conversion to an integer, and the result is exactly the instant s.fff — for every second
+of the window and every millisecond.  (Before the repair the milliseconds were dropped.) -/
+theorem fraction_preserved (s f : Nat) (h : inWindow .sec s) (hf : f < 1000) :
+    extractTimeStamp (.num (fracText s f)) = .ms ((s : Int) * 1000 + f) := by
+  obtain ⟨h1, h2⟩ := h
+  simp only [extractTimeStamp, extractNum_fracText s f h1 h2 hf, Res.ms.injEq]
+  omega
+
+/-- the regression witness: 1700000000.500 -/
+example : extractTimeStamp (.num (fracText 1700000000 500)) = .ms 1700000000500 :=
+  fraction_preserved 1700000000 500 (by unfold inWindow; omega) (by omega)
 
 /-- microseconds (not an accepted unit): every µs instant of 1973…2286, in either encoding, is
 returned unchanged, i.e. read as milliseconds (1000 times too far in the future). -/
 theorem micros_characterisation (enc : Enc) (v : Nat) (lo : Option Int)
     (h1 : 100000000000000 ≤ v) (h2 : v < 10000000000000000) :
     extractTimeStamp (scalarOf enc v lo) = .ms (v : Int) := by
-  cases enc with
-  | number =>
-    simp only [scalarOf, extractTimeStamp, extractNum_dec v (by omega), isMilli_true (v := (v : Int)) (by omega), if_true]
-  | string =>
-    simp only [scalarOf, extractTimeStamp, convertTimestampToMillis, goParseUint_dec v (by omega),
-      isNano_false (v := (v : Int)) (by omega), isMilli_true (v := (v : Int)) (by omega),
-      Bool.false_eq_true, if_false, Bool.not_true]
+  rw [extract_scalarOf enc v lo (by omega), scaleUnits_milli (v : Int) (by omega) (by omega)]
 
-/-- nanosecond digit strings for instants between 1973-03-03 and 2001-09-09 (below the documented
-10^18 magnitude) are returned unchanged, i.e. read as milliseconds. -/
-theorem nanos_before_2001_characterisation (v : Nat) (lo : Option Int)
+/-- nanosecond values for instants between 1973-03-03 and 2001-09-09 (below the documented 10^18
+magnitude) are returned unchanged, i.e. read as milliseconds. -/
+theorem nanos_before_2001_characterisation (enc : Enc) (v : Nat) (lo : Option Int)
     (h1 : 99999999999000000 ≤ v) (h2 : v < 1000000000000000000) :
-    extractTimeStamp (scalarOf .string v lo) = .ms (v : Int) := by
-  simp only [scalarOf, extractTimeStamp, convertTimestampToMillis, goParseUint_dec v (by omega),
-    isNano_false (v := (v : Int)) (by omega), isMilli_true (v := (v : Int)) (by omega),
-    Bool.false_eq_true, if_false, Bool.not_true]
-
-/-- exact behaviour for fractional seconds `<s>.<fff>` given as a JSON number (ParseInt fails,
-ParseFloat's binary64 is truncated by `uint64(val)` BEFORE the ×1000): the milliseconds are dropped. -/
-theorem fractional_seconds_characterisation (s f : Nat) (h : inWindow .sec s) (hf : f < 1000) :
-    extractTimeStamp (.num (fracText s f)) = .ms ((s : Int) * 1000) := by
-  obtain ⟨h1, h2⟩ := h
-  simp only [extractTimeStamp, extractNum_fracText s f h1 h2 hf]
-
-/-- the property for fractional seconds: the stored time is the instant s.fff -/
-def FractionPreserved : Prop :=
-  ∀ (s f : Nat), inWindow .sec s → f < 1000 →
-    extractTimeStamp (.num (fracText s f)) = .ms ((s : Int) * 1000 + f)
-
-/-- it fails: 1700000000.500 is stored as 1700000000000 -/
-theorem fraction_preserved_counterexample : ¬ FractionPreserved := by
-  intro h
-  have h1 := h 1700000000 500 (by unfold inWindow; omega) (by omega)
-  rw [fractional_seconds_characterisation 1700000000 500 (by unfold inWindow; omega) (by omega)] at h1
-  simp only [Res.ms.injEq] at h1
-  omega
-
-/-- under the guard "no fractional part" it holds -/
-theorem fraction_preserved_partial (s f : Nat) (h : inWindow .sec s) (hf : f = 0) :
-    extractTimeStamp (.num (fracText s f)) = .ms ((s : Int) * 1000 + f) := by
-  subst hf
-  rw [fractional_seconds_characterisation s 0 h (by omega)]
-  simp only [Res.ms.injEq]
-  omega
-
-example : ∃ s f, inWindow .sec s ∧ f = 0 := ⟨1700000000, 0, by unfold inWindow; omega, rfl⟩
+    extractTimeStamp (scalarOf enc v lo) = .ms (v : Int) := by
+  rw [extract_scalarOf enc v lo (by omega), scaleUnits_milli (v : Int) (by omega) (by omega)]
 
 /-! ## (3) arrival time only if the event carries no time -/
 
-/-- the uint64 that the jp.Number branch reads from a token (`none`: neither ParseInt nor ParseFloat
-accepts it — malformed, or the binary64 would be infinite) -/
-def numReading (t : List Char) : Option Int :=
+/-- what the jp.Number branch reads from a token -/
+inductive NumReading where
+  | unparseable                 -- neither ParseInt nor ParseFloat accepts it (malformed, or infinite)
+  | raw (v : Int)               -- a uint64 that then goes through the unit cascade
+  | scaledMs (ms : Int)         -- a small non-negative float: already round(val·1000)
+deriving Repr, DecidableEq
+
+def numReading (t : List Char) : NumReading :=
   match jpParseInt t with
-  | some v => some (wrapU64 v)
-  | none => (jpParseFloat t).map f64ToU64
+  | some v => .raw (wrapU64 v)
+  | none =>
+    match jpParseFloat t with
+    | none => .unparseable
+    | some f =>
+      if (!f.neg || f.q == 0) && !(Gen.IsTimeInMilli (f64ToU64 f)) then .scaledMs (f64ToU64 (f.mulNat 1000).round)
+      else .raw (f64ToU64 f)
 
 /-- the precisely characterised shapes for which the event has no usable time of its own -/
 def carriesNoTime : Scalar → Prop
   | .absent => True
   | .other => True
   | .strBadEscape => True
-  | .num t => numReading t = none ∨ numReading t = some 0
+  | .num t =>
+    match numReading t with
+    | .unparseable => True
+    | .raw v => v = 0                                       -- 0, -0, 0e5, "-" …: the epoch itself
+    | .scaledMs ms => ms = 0                                -- |value| below half a millisecond
   | .str s lo =>
     match goParseUint s with
     | some v => v = 0                                       -- "0", "000", … : the epoch itself
     | none => lo = none ∨ ∃ x, lo = some x ∧ wrapU64 x = 0  -- no layout matches, or 1970-01-01T00:00:00Z
 
 /-- C16.3 the arrival time is substituted (result 0, or "now" for an unparseable string) exactly
-for an absent key, a non-scalar, and the characterised shapes; in particular the ×1000 scaling of a
-non-zero reading never wraps to 0. -/
+for an absent key, a non-scalar, and the characterised shapes; in particular the unit cascade never
+turns a non-zero reading into 0. -/
 theorem arrival_only_if_absent (sc : Scalar) :
     (extractTimeStamp sc = .ms 0 ∨ extractTimeStamp sc = .now) ↔ carriesNoTime sc := by
   cases sc with
@@ -242,33 +190,36 @@ theorem arrival_only_if_absent (sc : Scalar) :
     simp only [extractTimeStamp, carriesNoTime, numReading, extractNum, Res.ms.injEq, reduceCtorEq, or_false]
     cases hpi : jpParseInt t with
     | some v =>
-      simp only [reduceCtorEq, false_or, Option.some.injEq]
-      exact scale_eq_zero_iff (wrapU64 v) (by unfold wrapU64; omega) (by unfold wrapU64; omega)
+      simp only []
+      exact scaleUnits_eq_zero_iff (wrapU64 v) (by unfold wrapU64; omega) (by unfold wrapU64; omega)
     | none =>
       cases hpf : jpParseFloat t with
       | none => simp
       | some f =>
-        simp only [Option.map_some, reduceCtorEq, false_or, Option.some.injEq]
-        exact scale_eq_zero_iff (f64ToU64 f) (f64ToU64_range f).1 (f64ToU64_range f).2
+        simp only []
+        split
+        · simp only []
+        · simp only []
+          exact scaleUnits_eq_zero_iff (f64ToU64 f) (f64ToU64_range f).1 (f64ToU64_range f).2
   | str s lo =>
     cases hpu : goParseUint s with
     | some v =>
       have hr := goParseUint_range hpu
       simp only [extractTimeStamp, carriesNoTime, convertTimestampToMillis, hpu, Res.ms.injEq, reduceCtorEq, or_false]
-      exact convert_uint_eq_zero_iff v hr.1 hr.2
+      exact scaleUnits_eq_zero_iff v hr.1 hr.2
     | none =>
       cases lo with
       | none => simp [extractTimeStamp, carriesNoTime, convertTimestampToMillis, hpu]
       | some x => simp [extractTimeStamp, carriesNoTime, convertTimestampToMillis, hpu]
 
-/-- consequence for the caller (`GetNewPLE` / `ProcessIndexRequestPle`): an event of the window in a
-supported unit/encoding is never stored under the arrival time. -/
+/-- consequence for the caller (`GetNewPLE` / `ProcessIndexRequestPle`): an event of the window, in
+any accepted unit and encoding, is never stored under the arrival time. -/
 theorem stored_is_event_time (tsNow : Int) (enc : Enc) (u : TUnit) (v : Nat) (lo : Option Int)
-    (hg : supported enc u) (h : inWindow u v) :
+    (h : inWindow u v) :
     storedMillis tsNow (scalarOf enc v lo) = .ms ((toMillis u v : Nat) : Int) := by
   have hpos : ((toMillis u v : Nat) : Int) ≠ 0 := by
     cases u <;> simp only [toMillis, inWindow] at h ⊢ <;> omega
-  simp only [storedMillis, time_preserved_partial enc u v lo hg h, hpos, if_false]
+  simp only [storedMillis, time_preserved enc u v lo h, hpos, if_false]
 
 /-! ## (4) the thresholds separate the windows -/
 
